@@ -44,9 +44,11 @@ def run(ctx):
             fp = fnp + '::' + nm
             fn = ctx.fn(fp)
             rows2 = P.table(ctx, fp, ['val'])
-            got = [(x.cond_strs(), [e for e in x.effects if '=' in e and not e.startswith('let')], x.value_str()) for x in rows2]
-            want = [(['(0 == val)'], ['val = %s::MAX' % ty], 'val'), (['!(0 == val)'], [], 'val')]
-            r.eq('%s:rows' % nm, got, want, ctx.site(fp), why='0 is promoted to the maximum, anything else is unchanged')
+            got = sorted((x.cond_strs(), [e for e in x.effects if '=' in e and not e.startswith('let')], x.value_str()) for x in rows2)
+            # either `if val == 0 { val = MAX }; val` or the expression form `if val == 0 { MAX } else { val }`
+            want_a = sorted([(['(0 == val)'], ['val = %s::MAX' % ty], 'val'), (['!(0 == val)'], [], 'val')])
+            want_b = sorted([(['(0 == val)'], [], '%s::MAX' % ty), (['!(0 == val)'], [], 'val')])
+            r.check('%s:rows' % nm, got in (want_a, want_b), ctx.site(fp), built=got, expected=want_a, why='0 is promoted to the maximum, anything else is unchanged')
             mx = [n for n in H.walk(fn['hir']) if H.num_limit(n)]
             r.check('%s:width' % nm, fn['inputs'] == [ty] and fn['output'] == ty and len(mx) == 1 and mx[0].get('ty') == ty and H.num_limit(mx[0]) == ty + '::MAX', ctx.site(fp), built=(fn['inputs'], fn['output'], [m.get('ty') for m in mx]),
                     expected='%s -> %s with %s::max_value()' % (ty, ty, ty), why="two unlimited sides yield the field's own maximum")
